@@ -39,9 +39,9 @@ func (bg *blockGen) fresh(prefix string) string {
 // leaf returns statements that never terminate on their own (or block for a
 // simulated hour at a time). allowSpawn limits thread-in-leaf nesting.
 func (bg *blockGen) leaf(allowSpawn bool) string {
-	n := 15
+	n := 16
 	if !allowSpawn {
-		n = 14
+		n = 15
 	}
 	k := bg.g.Intn(n)
 	if allowSpawn && bg.g.Chance(1, 12) {
@@ -67,6 +67,12 @@ func (bg *blockGen) leaf(allowSpawn bool) string {
 		bg.Shapes = append(bg.Shapes, "while-loop")
 		x := bg.fresh("w")
 		return fmt.Sprintf("%s := 0; for %s >= 0 { %s++ }", x, x, x)
+	case 14:
+		// builtins that drain a channel until it is closed
+		c := bg.fresh("c")
+		fmt.Fprintf(&bg.prelude, "%s := chan()\n", c)
+		bg.Shapes = append(bg.Shapes, "drain-builtin")
+		return fmt.Sprintf("%s(%s)", []string{"list", "set", "all", "list"}[bg.g.Intn(4)], c)
 	case 13:
 		bg.Shapes = append(bg.Shapes, "sleep-short")
 		return "for { time.sleep(0.05); tick() }"
